@@ -48,7 +48,7 @@ def handle : List String → String
 /-! Verbs for the verifier model (`Blue.Verifier`, instance `vfy`) and the orphan clean-up model
     (`Blue.Orphans`, instance `orph`).
 
-    directory ::= `sst=`<names> `trash=`<names> `vM=`<n|-> `vO=`<token> `vstrs=`<names>
+    directory ::= `sst=`<names> `trash=`<names> `vM=`<n|-> `vO=`<token> `vstrs=`<names> [`plan=old`]
                   `frags=`<n>`:`<edits>{`|`<n>`:`<edits>} `live=`<edits>
     names     ::= `-` | name{`+`name}           edits ::= `-` | edit{`;`edit}
     edit      ::= `.` | item{`,`item}           item  ::= `-`name | `+`name | <key char><value>
@@ -138,12 +138,17 @@ def dedupAdj : List String → List String
   | a :: b :: t => if a = b then dedupAdj (b :: t) else a :: dedupAdj (b :: t)
   | l => l
 
+/-- `plan=old` asks for the plan of the code before the repair of D-28 (the harness asks for the
+    one the code under test shows on the directed history) -/
+def checkerOf (toks : List String) : Checker Name :=
+  if field "plan" toks = some "old" then chainCheckerAsWas else chainChecker
+
 def handleVfy : List String → String
   | "pass" :: toks =>
     match parseDir toks with
     | none => "bad-op"
     | some d =>
-      let r := pass chainChecker d
+      let r := pass (checkerOf toks) d
       let d' := run d r.1
       let goneT := d.trash.filter (fun x => !d'.trash.contains x)
       let goneF := (d.frags.map (·.1)).filter (fun n => !(d'.frags.map (·.1)).contains n)
@@ -153,12 +158,12 @@ def handleVfy : List String → String
     match parseDir toks with
     | none => "bad-op"
     | some d =>
-      let r := pass chainChecker d
+      let r := pass (checkerOf toks) d
       s!"st={renderStatus r.2} acts={if r.1.isEmpty then "-" else ",".intercalate (r.1.map renderAct)}"
   | "prefixes" :: toks =>
     match parseDir toks with
     | none => "bad-op"
-    | some d => " | ".intercalate (dedupAdj (prefixStates d (pass chainChecker d).1))
+    | some d => " | ".intercalate (dedupAdj (prefixStates d (pass (checkerOf toks) d).1))
   | _ => "bad-op"
 
 def parseFragList (s : String) : Option (List (List Edit)) :=
